@@ -15,14 +15,15 @@ template <class Json>
 static void patch_case(size_t idx, const mj::Value& c, const char* flavour) {
     Json target = jc::build_doc<Json>(c["d"]); Json patch = jc::build_doc<Json>(c["patch"]);
     std::error_code ec; ++nchecks;
-    jsonpatch::apply_patch(target, patch, ec);
-    bool ok = !ec, expect = c["ok"].as_bool();
+    bool raised = false;      // (an exception from the error_code overload is an error reported, too: which channel is C05's business)
+    try { jsonpatch::apply_patch(target, patch, ec); } catch (const std::exception&) { raised = true; }
+    bool ok = !ec && !raised, expect = c["ok"].as_bool();
     if (ok != expect) fail(idx, c, flavour, expect ? "patch-rejected" : "patch-accepted", mj::Value(ok ? "ok" : ec.message()));
     if (ok && expect && !jc::doc_equals(target, c["r"])) fail(idx, c, flavour, "result-document", jc::doc_wire(target));
     if (!ok && !jc::doc_equals(target, c["d"])) fail(idx, c, flavour, "not-atomic", jc::doc_wire(target));
     // throwing overload must agree
     Json t2 = jc::build_doc<Json>(c["d"]); bool threw = false;
-    try { jsonpatch::apply_patch(t2, patch); } catch (const jsonpatch::jsonpatch_error&) { threw = true; }
+    try { jsonpatch::apply_patch(t2, patch); } catch (const jsonpatch::jsonpatch_error&) { threw = true; } catch (const std::exception&) { threw = true; }
     if (threw == ok) fail(idx, c, flavour, "throwing-overload-disagrees", mj::Value(threw));
     if (threw && !jc::doc_equals(t2, c["d"])) fail(idx, c, flavour, "not-atomic-throwing", jc::doc_wire(t2));
 }
